@@ -68,6 +68,12 @@ class Base(object):
         self.base_serial = scn.serial
         self.base_session = scn.session
         self.lines = dd.parse_file(self.appended)
+        # precondition of every cut: the sessions recorded what the harness printed
+        done = complete_dps(full, scn.starts)
+        missing = [(st['n'], j) for st in scn.starts for j in range(len(st['dps'])) if (st['n'], j) not in done]
+        if missing or not scn.starts:
+            self.problems.append(('data points printed by the harness are not completely in the data file',
+                                  missing[:5], len(scn.starts), None))
 
     def reset(self, k):
         scn = self.scn
@@ -150,7 +156,7 @@ def cut_points(base, rng, tier, n_random):
         if d['kind'] in ('bench_meta', 'run_meta'):
             eq = app.index('=', s)
             cuts.update([eq, eq + 1, eq + 2, s + 5, s + 12, s + 14])
-    for _ in range(n_random):
+    for _ in range(n_random if n > 2 else 0):
         cuts.add(rng.randint(1, n - 1))
     return sorted(c for c in cuts if 0 <= c <= n)
 
